@@ -64,6 +64,10 @@ type Device struct {
 	GarbageText string
 	// Log of writes: "pwm=<v>" / "mode=<v>" (":refused" suffix for refused writes)
 	Log []string
+	// RpmGate, if set, holds the NEXT read of the RPM register until the channel is closed; RpmEntered is closed when
+	// the reader has arrived
+	RpmGate    chan struct{}
+	RpmEntered chan struct{}
 	// OnWrite, if set, is called for every write (while the hook lock is held: it must not call
 	// back into this package); LogOff disables the Log slice
 	OnWrite func(entry string)
@@ -192,6 +196,17 @@ func regWrite(path string, b binding, data []byte) error {
 func ReadFile(path string) ([]byte, error) {
 	mu.Lock()
 	b, ok := bindings[path]
+	if ok && b.reg == RegRpm && b.dev.RpmGate != nil {
+		// a slow RPM read: the reader is held here (without the hook lock) until the harness opens the gate
+		gate, entered := b.dev.RpmGate, b.dev.RpmEntered
+		b.dev.RpmGate = nil
+		mu.Unlock()
+		if entered != nil {
+			close(entered)
+		}
+		<-gate
+		mu.Lock()
+	}
 	if ok {
 		defer mu.Unlock()
 		return regRead(path, b)
